@@ -209,6 +209,43 @@ def lens_dict_oracle(rng):
     return fails
 
 
+def long_history_oracle(seed):
+    """with scatter the value is reproducible from the seed after ANY history: a long one here — thousands of population
+    draws, a large share of them re-drawn because they fall outside the interpolation range — then the first call again,
+    on the used object and on a fresh one"""
+    import random
+    rng = random.Random(seed)
+    fails = []
+    lt = rng.choice(lc.KIN_TYPES)
+    cfg, h = lc.gen_lens_cfg(rng, lt, sharp=False, with_scaling=True, with_los=False)
+    data = lc.data_kwargs(rng, lt)
+    lc.finish_scaling(rng, cfg, data, lt)
+    cfg["anisotropy_distribution"] = rng.choice(["GAUSSIAN", "GAUSSIAN_SCALED", "GAUSSIAN_TAN_RAD"]) if "kin_scaling_param_list" in cfg else cfg.get("anisotropy_distribution", "NONE")
+    cfg["num_distribution_draws"] = 150
+    h["kwargs_kin"]["a_ani"] = rng.uniform(0.8, 1.5)
+    h["kwargs_kin"]["a_ani_sigma"] = rng.uniform(0.8, 1.5)      # wide: a large share of the draws leaves [0.5, 4]
+    cosmo = lc.FakeCosmo()
+    lens = lc.make_lens(lt, cfg, data)
+    s0 = rng.randrange(2 ** 30)
+
+    def at(obj, sd):
+        np.random.seed(sd)
+        with np.errstate(all="ignore"):
+            return float(np.squeeze(obj.lens_log_likelihood(cosmo, **copy.deepcopy(h))))
+    v0 = at(lens, s0)
+    for k in range(40):
+        at(lens, s0 + 1 + k)
+    v1 = at(lens, s0)
+    v2 = at(lc.make_lens(lt, cfg, data), s0)
+    same = lambda a, b: a == b or (math.isnan(a) and math.isnan(b))  # noqa: E731
+    if not same(v0, v1):
+        fails.append("with scatter: seed %d gives %r on the new object and %r on the same object after 40 further evaluations "
+                     "(%s, %d draws each, %s)" % (s0, v0, v1, lt, cfg["num_distribution_draws"], cfg["anisotropy_distribution"]))
+    if not same(v0, v2):
+        fails.append("with scatter: seed %d gives %r on one fresh object and %r on another (%s)" % (s0, v0, v2, lt))
+    return fails
+
+
 def sne_oracle(rng):
     """CustomSneLikelihood: repeated calls with varying scatter agree; stored arrays untouched"""
     from hierarc.Likelihood.SneLikelihood.sne_likelihood import SneLikelihood
@@ -273,6 +310,17 @@ def run(ctx, res):
         res.count("lens_dicts")
         for f in fails:
             res.violation("lens:" + " ".join(f.split(" ")[:5]), f, {"kind": "lens"})
+    for _ in range(ctx.n(2, 12) * (3 if ctx.search_mode else 1)):
+        sd = rng.randrange(2 ** 30)
+        try:
+            fails = long_history_oracle(sd)
+        except Exception as e:  # noqa
+            res.notes.append("long history could not be run: %r" % (e,))
+            continue
+        res.evaluations += 1
+        res.count("long_history")
+        for f in fails:
+            res.violation("long history:" + " ".join(f.split(" ")[:3]), f, {"kind": "long_history", "seed": sd})
     for _ in range(ctx.n(10, 100)):
         try:
             fails = sne_oracle(rng)
@@ -308,6 +356,9 @@ def replay(ctx, data):
             if f:
                 return True, str(f)
         return False, "lens oracle holds"
+    if inp["kind"] == "long_history":
+        f = long_history_oracle(inp["seed"])
+        return bool(f), "long-history oracle: %s" % (f or "holds")
     if inp["kind"] == "sne":
         for s in range(40):
             f = sne_oracle(random.Random(s))
